@@ -354,6 +354,10 @@ def scenarios(tier):
     ks = range(len(chunks) + 1) if mode != 'str' else [0]
     for k in ks:
       out.append({'kind': 'custom', 'chunks': chunks, 'mode': mode, 'fail_after': k, 'pattern': 'brace'})
+  # a serializer that yields nothing at all: the (empty) record still replaces whatever the destination held
+  for mode in ('iter_text', 'iter_bytes'):
+    out.append({'kind': 'custom', 'chunks': [], 'mode': mode, 'pattern': 'brace'})
+  out.append({'kind': 'custom', 'chunks': [''], 'mode': 'str', 'pattern': 'brace'})
   out.append({'kind': 'custom', 'chunks': ['[' + 'x' * 30000, 'y' * 30000, 'z' * 9000 + ']'], 'mode': 'iter_text',
               'pattern': 'brace', 'history': True})
   out.append({'kind': 'custom', 'chunks': ['[' + 'x' * 30000, 'y' * 30000, 'z' * 9000 + ']'], 'mode': 'iter_bytes',
